@@ -38,6 +38,11 @@ for _t in ('EQUALS', 'NEQUALS', 'LESS', 'LEQ', 'GREATER', 'GEQ', 'IN', 'NOT_IN',
     LVL[_t] = 3
 LVL['AND'] = 1
 LVL['OR'] = 0
+# predicates that a grammar spells with two tokens (`expr NOT IN expr` in the mysql / sqlite grammars): the look-ahead that decides is the FIRST token,
+# the level is the predicate's.  Key = the tokens separated by a blank.
+MULTI = {('NOT', 'IN'): 'NOT IN', ('NOT', 'LIKE'): 'NOT LIKE', ('IS', 'NOT'): 'IS NOT'}
+for _t in MULTI.values():
+    LVL[_t] = 3
 L_UMINUS, L_NOT, L_CMP = 6, 2, 3
 LEFT_ASSOC_LEVELS = {5, 4, 1, 0}
 
@@ -55,6 +60,8 @@ def classify_rule(p):
         return ('not', L_NOT, 'NOT')
     if rhs == ('expr', 'BETWEEN', 'expr', 'AND', 'expr'):
         return ('between', L_CMP, 'BETWEEN')
+    if len(rhs) == 4 and rhs[0] == 'expr' and rhs[3] == 'expr' and (rhs[1], rhs[2]) in MULTI:
+        return ('binary', L_CMP, MULTI[(rhs[1], rhs[2])])
     return None
 
 
@@ -73,13 +80,14 @@ def expected(rule_level, tok):
 # ------------------------------------------------------------------ witness / replay on the real parser
 OPTEXT = {'STAR': '*', 'DIVIDE': '/', 'MODULO': '%', 'PLUS': '+', 'MINUS': '-', 'EQUALS': '=', 'NEQUALS': '!=',
           'LESS': '<', 'LEQ': '<=', 'GREATER': '>', 'GEQ': '>=', 'IN': 'in', 'NOT_IN': 'not in', 'LIKE': 'like',
-          'NOT_LIKE': 'not like', 'IS': 'is', 'IS_NOT': 'is not', 'AND': 'and', 'OR': 'or', 'BETWEEN': 'between'}
+          'NOT_LIKE': 'not like', 'IS': 'is', 'IS_NOT': 'is not', 'AND': 'and', 'OR': 'or', 'BETWEEN': 'between',
+          'NOT IN': 'not in', 'NOT LIKE': 'not like', 'IS NOT': 'is not'}
 
 
 def rhs_text(tok, name):
-    if tok in ('IN', 'NOT_IN'):
+    if tok in ('IN', 'NOT_IN', 'NOT IN'):
         return f'({name}, 1)'
-    if tok in ('IS', 'IS_NOT'):
+    if tok in ('IS', 'IS_NOT', 'IS NOT'):
         return 'NULL'
     return name
 
@@ -281,12 +289,16 @@ def table_obligations(rep, dname):
             rhs = lr0.rhs[p]
             if lr0.lhs[p] == 'expr' and dot == 1 and rhs[0] == 'expr' and len(rhs) > 1 and rhs[1] in LVL:
                 cont.add(rhs[1])
+            # a predicate spelled with two tokens: the decision is taken on its first token
+            if lr0.lhs[p] == 'expr' and dot == 1 and rhs[0] == 'expr' and len(rhs) == 4 and rhs[3] == 'expr' and (rhs[1], rhs[2]) in MULTI \
+                    and rhs[1] not in LVL:
+                cont.add(MULTI[(rhs[1], rhs[2])])
         for t in sorted(cont):
             exp = expected(rlvl, t)
             if exp is None:
                 continue
             n_rows += 1
-            act = d.action[s].get(t, 'absent') if s not in d.defaulted else d.defaulted[s]
+            act = d.action[s].get(t.split()[0], 'absent') if s not in d.defaulted else d.defaulted[s]
             if act == 'absent':
                 got = 'absent'
             elif act is None:
@@ -382,6 +394,9 @@ def bounded(rep, tier, known_pairs):
     for dname in lrtab.DIALECTS:
         d = lrtab.load(dname)
         optoks = [t for t in LVL if t in d.terminals]
+        # predicates this grammar spells with two tokens
+        optoks += sorted({MULTI[(tuple(p.prod)[1], tuple(p.prod)[2])] for p in d.prods[1:]
+                          if p.name == 'expr' and len(p.prod) == 4 and (tuple(p.prod)[1], tuple(p.prod)[2]) in MULTI and p.prod[0] == 'expr' and p.prod[3] == 'expr'})
         ctxs = ['select-list', 'where'] if tier == 'quick' else list(CONTEXTS)
         # a context the dialect cannot parse even around a bare operand (e.g. CASE in the sqlite dialect) is outside "accepted statements"
         usable = []
